@@ -1,7 +1,7 @@
 #!/usr/bin/env python3
 """Engine correspondence: seeded case generator (profiles), runner for implrun (Go, real LockDB) and modelrun
 (extracted Coq model), observation parser, diff and shrinker.  Used by checks C01-C06, C10, C11, C15, C17."""
-import os, random, subprocess, sys, tempfile, time, collections, json
+import os, random, subprocess, sys, tempfile, time, collections, json, zlib
 sys.path.insert(0, os.path.dirname(os.path.abspath(__file__)))
 import vlib
 
@@ -24,6 +24,10 @@ PROFILES = {
     "sched": dict(sched=True, nkeys=1, nids=5, p_unlock=0.3, p_time=0.12, timeouts=[0, 0, 2, 5, 9], counts=[0, 0, 0, 1, 2], expr=[0, 2, 5, 10, 20], length=(8, 50)),
     "schedrole": dict(sched=True, nkeys=1, nids=4, p_unlock=0.25, p_time=0.1, p_role=0.12, timeouts=[0, 0, 3], counts=[0, 1], expr=[0, 2, 5, 10], length=(8, 40)),
     "sched2": dict(sched=True, nkeys=2, nids=4, p_unlock=0.3, p_time=0.15, timeouts=[0, 3, 8], counts=[0, 1, 65535], expr=[1, 3, 10], length=(10, 60)),
+    # sweeps as threads (yield points 14 / 15 between the collection and the per-lock calls): several holds / waiters due
+    # in the same second, unlocks / cancels / re-locks of exactly those locks while the sweep thread is parked
+    "schedsweep": dict(sched=True, sweeptpl=True, nkeys=2, nids=8, p_start=0.0, p_sweepthread=0.6, expr=[1, 2, 3, 20], timeouts=[0, 1, 2, 3, 20],
+                       counts=[0, 0, 1, 2]),
     "many": dict(nkeys=1, nids=400, counts=[65535, 300, 200], timeouts=[30, 60], expr=[50, 100], p_unlock=0.2, length=(300, 700), p_time=0.03),
 }
 
@@ -137,6 +141,109 @@ class Gen:
         self.stats["require_ack"] += 2
         return lines
 
+    def sweep_body(self, keys, ids, conns):
+        """rounds of: a group of holds (same expiry) and queued requests (same timeout) on one key, all taken in the same
+        second; the clock moves to the second in which they fall due; the sweep(s) start as threads (collect the group,
+        park in front of the first per-lock call); then requests on exactly these locks (unlock, cancel, re-lock, update),
+        new requests on the key, requests on another key and resume steps in any order"""
+        r = self.rng
+        lines = []
+        key, other = keys[0], keys[-1]
+
+        def L(lid, k, flag=0, tflag=0, timeout=0, eflag=0, expried=5, count=0, rcount=0):
+            self.req += 1
+            self.stats["lock"] += 1
+            return "req %d L %d %d %d %d %d %d %d %d %d %d -" % (r.choice(conns), self.req, flag, lid, k, tflag, timeout, eflag, expried, count, rcount)
+
+        def U(lid, k, flag=0, rcount=0):
+            self.req += 1
+            self.stats["unlock"] += 1
+            return "req %d U %d %d %d %d 0 0 0 0 0 %d -" % (r.choice(conns), self.req, flag, lid, k, rcount)
+
+        for _ in range(r.choice([1, 1, 2, 3])):
+            kind = r.choice(["e", "e", "e", "t", "t", "both", "both"])
+            # "solo": the group is all there is on the key (holds only, one deadline): once its members are released the
+            # references of the parked sweep are the key's last ones (any other record of the key, even a released
+            # one, keeps the key alive until its own wheel slot is swept)
+            solo = r.random() < 0.3
+            if solo:
+                kind = "e"
+                self.stats["window_solo"] += 1
+            cnt = self.pick("counts", [0, 0, 1, 2])
+            E = r.choice([1, 2, 2, 3]) if kind in ("e", "both") else 20
+            T = r.choice([1, 2, 2, 3]) if kind in ("t", "both") else 20
+            if kind == "both" and r.random() < 0.6:
+                T = E
+            pool = list(ids)
+            r.shuffle(pool)
+            holders = pool[:cnt + 1]
+            nw = r.choice([0, 0, 1, 2, 3]) if kind == "e" else r.choice([1, 2, 3])
+            if solo:
+                nw = 0
+            waiters = pool[cnt + 1:cnt + 1 + nw]
+            rc = r.choice([0, 0, 0, 2])
+            for lid in holders:
+                lines.append(L(lid, key, expried=E, count=cnt, rcount=rc, timeout=0 if solo else r.choice([0, 0, T])))
+            for lid in waiters:
+                lines.append(L(lid, key, timeout=T, expried=r.choice([E, 5, 20]), count=cnt, tflag=0x10 if r.random() < 0.1 else 0,
+                               rcount=r.choice([0, 1, 2]) if r.random() < 0.1 else 0))
+            if r.random() < 0.3 and other != key:
+                lines.append(L(r.choice(ids), other, expried=r.choice([E, 5]), timeout=0))
+            due = min(E, T) if kind == "both" else (E if kind == "e" else T)
+            lines.append("adv %d" % (due + r.choice([0, 0, 0, 1])))
+            self.stats["adv"] += 1
+            sw = {"e": ["startsweepe"], "t": ["startsweept"], "both": ["startsweept", "startsweepe"]}[kind]
+            r.shuffle(sw)
+            if kind != "both" and r.random() < 0.5:
+                sw.insert(r.randint(0, 1), "sweept" if kind == "e" else "sweepe")
+            lines += sw
+            mark = len(lines)
+            self.stats["sweep_thread"] += len([x for x in sw if x.startswith("start")])
+            group = holders + waiters
+            if solo or r.random() < 0.3:
+                # every member of the group is released while the sweep is parked (the holds, then the queued requests
+                # that were granted in turn): the references the parked sweep holds are then the last ones of their
+                # records, and the last of them the last one of the key
+                burst = [U(h, key) for h in holders for _ in range(2 if rc else 1)]
+                if r.random() < 0.8:
+                    burst += [U(w, key, flag=r.choice([0, 0, 2])) for w in waiters]
+                lines += burst
+                self.stats["window_unlock"] += len(burst)
+                self.stats["window_release_all"] += 1
+            for _ in range(r.randint(2, 9)):
+                if lines[-1].startswith("req ") and lines[-1] not in sw and len(lines) > mark and r.random() < 0.35:
+                    lines[-1] = "start" + lines[-1][3:]      # a request of the window is a thread itself
+                x = r.random()
+                if solo and r.random() < 0.6:
+                    x = 0.75
+                if x < 0.28:
+                    lines.append(U(r.choice(holders), key, flag=0, rcount=r.choice([0, 0, 1])))          # release a collected hold
+                    self.stats["window_unlock"] += 1
+                elif x < 0.40 and waiters:
+                    lines.append(U(r.choice(waiters), key, flag=2))                                      # cancel a collected queued request
+                    self.stats["window_cancel"] += 1
+                elif x < 0.50:
+                    lines.append(L(r.choice(group), key, flag=r.choice([0, 0, 2, 1]), expried=r.choice([E, 5]), count=cnt,
+                                   rcount=rc, timeout=r.choice([0, T])))                                 # re-lock / update / show of a group member
+                    self.stats["window_relock"] += 1
+                elif x < 0.58:
+                    lines.append(L(r.choice(ids), key, expried=r.choice([E, 5]), count=cnt, timeout=r.choice([0, T])))
+                elif x < 0.66:
+                    lines.append(L(r.choice(ids), other, expried=r.choice([1, 5]), timeout=0) if r.random() < 0.6 else U(r.choice(ids), other))
+                elif x < 0.70:
+                    lines.append(U(0, key, flag=1))
+                elif x < 0.93:
+                    lines.append("resume %d" % r.randint(0, 3))
+                    self.stats["resume"] += 1
+                elif x < 0.96:
+                    lines.append("drainsweeps")
+                else:
+                    lines += ["adv 1", r.choice(["startsweepe", "startsweept", "sweepe", "sweept"])]
+                    self.stats["adv"] += 1
+            if r.random() < 0.7:
+                lines.append("drain")
+        return lines
+
     def from_aof(self, line):
         f = line.split()
         f[4] = str(int(f[4]) | 4)
@@ -179,6 +286,9 @@ class Gen:
             lines += pre
             nacks += sum(1 for l in pre if l.startswith("ack "))
             n = max(3, n // 2)
+        if self.p.get("sweeptpl"):
+            lines += self.sweep_body(keys, ids, conns)
+            n = 0
         for _ in range(n):
             if sched and r.random() < 0.45:
                 lines.append("resume %d" % r.randint(0, 5))
@@ -219,7 +329,17 @@ class Gen:
                     ln = self.from_aof(ln); self.stats["from_aof"] += 1
                 lines.append(ln)
         if sched:
-            lines = [("start" + l[3:]) if l.startswith("req ") and r.random() < 0.85 else l for l in lines]
+            p_start = self.p.get("p_start", 0.85)
+            lines = [("start" + l[3:]) if l.startswith("req ") and r.random() < p_start else l for l in lines]
+            # some of the sweeps run as threads too.  The choice is drawn from a generator derived from the text of the
+            # history, not from the main stream: the histories of all other profiles stay what they were
+            r2 = random.Random(zlib.crc32("\n".join(lines).encode()))
+            p_sw = self.p.get("p_sweepthread", 0.3)
+            if r2.random() < 0.75:
+                for i, l in enumerate(lines):
+                    if l in ("sweept", "sweepe") and r2.random() < p_sw:
+                        lines[i] = "start" + l
+                        self.stats["sweep_thread"] += 1
             lines.append("drain")
         if drain:
             lines.append("adv 0")     # marker: the drain phase starts here (kept intact by the shrinker)
@@ -399,7 +519,7 @@ class Runner:
         self.impl = ctx.go_build("engine_implrun", os.path.join(vlib.VERIF, "harness", "engine"),
                                  overlay={"server/zz_verif_engine.go": "harness/engine/inj/zz_verif_engine.go",
                                           "server/zz_verif_realtime.go": "harness/engine/inj/zz_verif_realtime.go"}, pkg="./cmd/implrun")
-        self.model = ctx.ocaml_model("engine", deps=["Engine/Ack.vo", "Engine/Sched.vo"])
+        self.model = ctx.ocaml_model("engine", deps=["Engine/Ack.vo", "Engine/Sched.vo", "Engine/SchedSweep.vo"])
         self.tmp = tempfile.mkdtemp(prefix="verif-eng-")
 
     def run_cases(self, cases):
